@@ -1,7 +1,7 @@
 (* C15 - histories: between the acceptance of an assertion carrying (jti, exp) and the instant
    exp no assertion with that jti is accepted, for all histories; a JWT-bearer grant assertion is
-   accepted at most once; a client assertion is accepted at most once except inside the second
-   named by its exp or when exp = 0 (both refuted with concrete histories). *)
+   accepted at most once; so is a client assertion (since fix 3e32ae1 of the library); in general a
+   jti is accepted again only with a strictly later exp. *)
 From FositeModel Require Import Base.Str Model.Scope Model.Assertion Proofs.JwtStore Proofs.AssertionProofs.
 Local Open Scope Z_scope.
 
@@ -40,7 +40,11 @@ Lemma ca_flow_pre tus clients nw a :
   (exists e, f_pre (ca_flow tus clients nw a) = inl e) \/
   exists cid j, ca_pre tus clients nw a = inr (cid, j) /\ f_pre (ca_flow tus clients nw a) = inr (Some j) /\
                 ca_jti a = JStr j /\
-                f_mid (ca_flow tus clients nw a) = match to_int64 (ca_exp a) with Some e => inr e | None => inl EInvalidClient end.
+                f_mid (ca_flow tus clients nw a) =
+                  match to_int64 (ca_exp a) with
+                  | Some e => if before_now nw e then inl EInvalidClient else inr e
+                  | None => inl EInvalidClient
+                  end.
 Proof.
   unfold ca_flow. destruct (ca_pre tus clients nw a) as [e|[cid j]] eqn:H; [left; eexists; reflexivity|].
   right. exists cid, j. apply ca_pre_iff in H as Hs.
@@ -49,15 +53,16 @@ Qed.
 
 Lemma client_auth_mark tus clients nw st a st' cid sub :
   client_auth tus clients nw st a = (st', Acc cid sub) ->
-  exists j e, ca_mark a = [(j, e)] /\ flow_mark (ca_flow tus clients nw a) = Some (j, e).
+  exists j e, ca_mark a = [(j, e)] /\ flow_mark (ca_flow tus clients nw a) = Some (j, e) /\ nw <= e * 1000.
 Proof.
   unfold client_auth. intros H. apply run_flow_acc in H as [_ H].
   destruct (ca_flow_pre tus clients nw a) as [[x Hx]|(c0 & j & _ & Hp & Hj & Hm)].
   - destruct H as [(Hp & _)|(j & e & Hp & _)]; congruence.
   - destruct H as [(Hp' & _)|(j' & e & Hp' & Hm' & _)]; [congruence|].
     rewrite Hp in Hp'. injection Hp' as <-. rewrite Hm in Hm'.
-    destruct (to_int64 (ca_exp a)) as [e0|] eqn:He; [|discriminate]. injection Hm' as <-.
-    exists j, e0. unfold ca_mark, flow_mark. rewrite Hj, He, Hp, Hm. auto.
+    destruct (to_int64 (ca_exp a)) as [e0|] eqn:He; [|discriminate].
+    destruct (before_now nw e0) eqn:Hb; [discriminate|]. injection Hm' as <-.
+    exists j, e0. unfold ca_mark, flow_mark. rewrite Hj, He, Hp, Hm. apply not_before_iff in Hb. auto.
 Qed.
 
 Lemma client_auth_cid_nonempty tus clients nw st a st' cid sub :
@@ -154,7 +159,7 @@ Proof.
   destruct o as [d|a|ca b]; cbn.
   - easy.
   - destruct (client_auth _ _ _ _ _) as [st' r] eqn:H. cbn. destruct r as [cid sub|]; [|easy].
-    intros Hin _. destruct (client_auth_mark _ _ _ _ _ _ _ _ H) as (j0 & e0 & Hm & Hf).
+    intros Hin _. destruct (client_auth_mark _ _ _ _ _ _ _ _ H) as (j0 & e0 & Hm & Hf & _).
     rewrite Hm in Hin. destruct Hin as [[= <- <-]|[]].
     unfold client_auth in H. destruct (run_flow_mark _ _ _ _ _ _ _ _ H Hf) as [_ ->]. cbn. now rewrite String.eqb_refl.
   - destruct (grant_request _ _ _ _ _) as [st' r] eqn:H. cbn. destruct r as [cid sub|]; [|easy].
@@ -163,7 +168,7 @@ Proof.
     + (* the client assertion's mark: written by the first flow, kept by the second *)
       destruct ca as [a|]; [|easy]. destruct (String.eqb_spec cid ""); [easy|].
       destruct Hc as [[-> _]|(a' & s0 & [= <-] & Hc)]; [easy|].
-      destruct (client_auth_mark _ _ _ _ _ _ _ _ Hc) as (j0 & e0 & Hm & Hf).
+      destruct (client_auth_mark _ _ _ _ _ _ _ _ Hc) as (j0 & e0 & Hm & Hf & _).
       rewrite Hm in Hin. destruct Hin as [[= <- <-]|[]].
       unfold client_auth in Hc. destruct (run_flow_mark _ _ _ _ _ _ _ _ Hc Hf) as [_ Hst1].
       eapply run_flow_persist; [|exact Hn|exact Hb]. rewrite Hst1. cbn. now rewrite String.eqb_refl.
@@ -180,7 +185,7 @@ Proof.
   intros Hg Hn. destruct o as [d|a|ca b]; cbn.
   - easy.
   - destruct (client_auth _ _ _ _ _) as [st' r] eqn:H. cbn. destruct r as [cid sub|]; [|easy].
-    intros Hin. destruct (client_auth_mark _ _ _ _ _ _ _ _ H) as (j0 & e0 & Hm & Hf).
+    intros Hin. destruct (client_auth_mark _ _ _ _ _ _ _ _ H) as (j0 & e0 & Hm & Hf & _).
     rewrite Hm in Hin. destruct Hin as [[= <- <-]|[]].
     unfold client_auth in H. unfold flow_mark in Hf.
     destruct (f_pre (ca_flow (w_tus w) (w_clients w) (now s) a)) as [|[j1|]] eqn:Hp; try discriminate.
@@ -191,7 +196,7 @@ Proof.
     apply in_app_or in Hin as [Hin|Hin].
     + destruct ca as [a|]; [|easy]. destruct (String.eqb_spec cid ""); [easy|].
       destruct Hc as [[-> _]|(a' & s0 & [= <-] & Hc)]; [easy|].
-      destruct (client_auth_mark _ _ _ _ _ _ _ _ Hc) as (j0 & e0 & Hm & Hf).
+      destruct (client_auth_mark _ _ _ _ _ _ _ _ Hc) as (j0 & e0 & Hm & Hf & _).
       rewrite Hm in Hin. destruct Hin as [[= <- <-]|[]].
       unfold client_auth in Hc. unfold flow_mark in Hf.
       destruct (f_pre (ca_flow (w_tus w) (w_clients w) (now s) a)) as [|[j1|]] eqn:Hp; try discriminate.
@@ -285,32 +290,71 @@ Proof.
     pose proof (jti_window _ _ _ _ _ _ _ _ _ _ _ _ _ _ Hi Hk Hlt Hin1 Hin2). lia.
 Qed.
 
-(* a client assertion presented again is accepted only inside the second named by its exp, or when
-   its exp is 0 -- the two findings; everywhere else it is accepted at most once *)
-Theorem client_assertion_once_partial w ops s i k si ri sk rk a c1 s1 c2 s2 :
+(* ------------------------------------------------------------------ at most once, at full strength *)
+Lemma trace_nth_step w ops : forall s k sk ok rk,
+  nth_error (trace w s ops) k = Some (sk, ok, rk) -> rk = snd (step w sk ok).
+Proof.
+  induction ops as [|o r IH]; intros s k sk ok rk Hk; [destruct k; discriminate|].
+  cbn [trace] in Hk. destruct (step w s o) as [s1 x] eqn:Hs. destruct k; cbn in Hk.
+  - injection Hk as <- <- <-. now rewrite Hs.
+  - eapply IH; eassumption.
+Qed.
+
+(* whatever an accepted operation consumes is not past the instant of its exp: the grant handler
+   refuses an assertion with exp*1000 < now, and so does (since fix 3e32ae1) client authentication *)
+Lemma step_marks_live w s o j e :
+  In (j, e) (marks o (snd (step w s o))) -> now s <= e * 1000.
+Proof.
+  destruct o as [d|a|ca b]; cbn.
+  - easy.
+  - destruct (client_auth _ _ _ _ _) as [st' r] eqn:H. cbn. destruct r as [cid sub|]; [|easy].
+    intros Hin. destruct (client_auth_mark _ _ _ _ _ _ _ _ H) as (j0 & e0 & Hm & _ & Hle).
+    rewrite Hm in Hin. destruct Hin as [[= <- <-]|[]]. assumption.
+  - destruct (grant_request _ _ _ _ _) as [st' r] eqn:H. cbn. destruct r as [cid sub|]; [|easy].
+    intros Hin. apply grant_request_acc in H as (st1 & grants & Hb & Hc).
+    apply in_app_or in Hin as [Hin|Hin].
+    + destruct ca as [a|]; [|easy]. destruct (String.eqb_spec cid ""); [easy|].
+      destruct Hc as [[-> _]|(a' & s0 & [= <-] & Hc)]; [easy|].
+      destruct (client_auth_mark _ _ _ _ _ _ _ _ Hc) as (j0 & e0 & Hm & _ & Hle).
+      rewrite Hm in Hin. destruct Hin as [[= <- <-]|[]]. assumption.
+    + destruct (bearer_mark _ _ _ _ _ _ _ _ _ _ _ Hb) as [(_ & Hm & _)|(e0 & Hm & _ & Hle)]; rewrite Hm in Hin; [easy|].
+      destruct Hin as [[= <- <-]|[]]. assumption.
+Qed.
+
+(* All histories, all positions, both kinds of assertion and mixed use of one jti: a jti that was
+   accepted with exp e1 is accepted again only by an assertion with a strictly later exp (and then
+   only after the instant e1).  In particular no assertion (fixed jti and exp) is accepted twice. *)
+Theorem jti_once w ops s i k si oi ri sk ok rk j e1 e2 :
+  nth_error (trace w s ops) i = Some (si, oi, ri) ->
+  nth_error (trace w s ops) k = Some (sk, ok, rk) -> (i < k)%nat ->
+  In (j, e1) (marks oi ri) -> In (j, e2) (marks ok rk) ->
+  e1 < e2.
+Proof.
+  intros Hi Hk Hlt H1 H2.
+  pose proof (jti_window _ _ _ _ _ _ _ _ _ _ _ _ _ _ Hi Hk Hlt H1 H2) as Hw.
+  rewrite (trace_nth_step _ _ _ _ _ _ _ Hk) in H2. apply step_marks_live in H2. lia.
+Qed.
+
+(* one client assertion is accepted at most once in any history: before, at and after its expiry *)
+Theorem client_assertion_once w ops s i k si ri sk rk a c1 s1 c2 s2 :
   nth_error (trace w s ops) i = Some (si, OAuth a, ri) ->
   nth_error (trace w s ops) k = Some (sk, OAuth a, rk) -> (i < k)%nat ->
-  ri = Acc c1 s1 -> rk = Acc c2 s2 ->
-  exists e, to_int64 (ca_exp a) = Some e /\ e * 1000 < now sk /\ (now sk < (e + 1) * 1000 \/ e = 0).
+  ri = Acc c1 s1 -> rk = Acc c2 s2 -> False.
 Proof.
   intros Hi Hk Hlt -> ->.
-  assert (Hr : step w sk (OAuth a) = (fst (step w sk (OAuth a)), Acc c2 s2)).
-  { clear - Hk. revert s k Hk. induction ops as [|o r IH]; intros s k Hk; [destruct k; discriminate|].
-    cbn [trace] in Hk. destruct (step w s o) as [s1 x] eqn:Hs. destruct k; cbn in Hk.
-    - injection Hk as <- <- <-. now rewrite Hs.
-    - eapply IH; eassumption. }
-  cbn in Hr. destruct (client_auth (w_tus w) (w_clients w) (now sk) (jt sk) a) as [st' r] eqn:H. cbn in Hr.
-  injection Hr as ->.
+  pose proof (trace_nth_step _ _ _ _ _ _ _ Hk) as Hr. cbn in Hr.
+  destruct (client_auth (w_tus w) (w_clients w) (now sk) (jt sk) a) as [st' r] eqn:H. cbn in Hr. subst r.
   destruct (client_auth_mark _ _ _ _ _ _ _ _ H) as (j & e & Hm & _).
-  pose proof (client_assertion_sound _ _ _ _ _ _ _ _ H) as (c & keys & k0 & j' & e' & Hs).
-  destruct Hs as (_ & _ & _ & _ & _ & _ & _ & _ & _ & _ & _ & _ & He & Hexp & _).
-  assert (e' = e).
-  { unfold ca_mark in Hm. rewrite He in Hm. destruct (ca_jti a); try discriminate. now injection Hm. }
-  subst e'. exists e. split; [assumption|].
   assert (Hin : In (j, e) (marks (OAuth a) (Acc c1 s1))) by (cbn; rewrite Hm; now left).
   assert (Hin2 : In (j, e) (marks (OAuth a) (Acc c2 s2))) by (cbn; rewrite Hm; now left).
-  pose proof (jti_window _ _ _ _ _ _ _ _ _ _ _ _ _ _ Hi Hk Hlt Hin Hin2) as Hw.
-  split; [assumption|]. destruct Hexp as [Hu|Hz]; [left|now right].
-  unfold unix in Hu. pose proof (Z.mul_div_le (now sk) 1000 ltac:(lia)).
-  pose proof (Z.mod_pos_bound (now sk) 1000 ltac:(lia)). pose proof (Z.div_mod (now sk) 1000 ltac:(lia)). lia.
+  pose proof (jti_once _ _ _ _ _ _ _ _ _ _ _ _ _ _ Hi Hk Hlt Hin Hin2). lia.
+Qed.
+
+(* the same when the client assertion authenticates a JWT-bearer grant request *)
+Theorem client_assertion_once_any_role w ops s i k si oi ri sk ok rk j e :
+  nth_error (trace w s ops) i = Some (si, oi, ri) ->
+  nth_error (trace w s ops) k = Some (sk, ok, rk) -> (i < k)%nat ->
+  In (j, e) (marks oi ri) -> In (j, e) (marks ok rk) -> False.
+Proof.
+  intros Hi Hk Hlt H1 H2. pose proof (jti_once _ _ _ _ _ _ _ _ _ _ _ _ _ _ Hi Hk Hlt H1 H2). lia.
 Qed.
